@@ -6,3 +6,4 @@ pub mod groups;
 pub mod dsym3;
 pub mod manifold;
 pub mod cubic;
+pub mod prismatic;
